@@ -118,15 +118,19 @@ Qed.
 Theorem in_build_imps mods imports lim a b :
   In (a, b) (imps (build_graph ceqb mods imports lim)) <->
   exists x y, In (x, y) imports /\ a = fl lim x /\ b = fl lim y /\ a <> b /\
+              In x (build_nodes ceqb None mods imports) /\ In y (build_nodes ceqb None mods imports) /\
               In a (build_nodes ceqb lim mods imports) /\ In b (build_nodes ceqb lim mods imports) /\ childb a b = false.
 Proof.
   unfold build_graph. cbn [imps]. rewrite in_pdedup, in_filter_map. unfold keep_import, fl. split.
   - intros [[x y] [Hi Hk]]. cbn [fst snd] in Hk.
+    destruct (memb x (build_nodes ceqb None mods imports) && memb y (build_nodes ceqb None mods imports)) eqn:Ef; cbn [negb] in Hk; [|discriminate].
+    apply andb_true_iff in Ef. destruct Ef as [Hfx Hfy].
     destruct (name_eqb_spec ceqb ceqb_spec (flatten lim x) (flatten lim y)) as [E|Hne]; [discriminate|].
     destruct (memb (flatten lim x) _ && memb (flatten lim y) _ && negb (childb (flatten lim x) (flatten lim y))) eqn:Ec; [|discriminate].
     injection Hk as <- <-. apply andb_true_iff in Ec. destruct Ec as [Ec Hc]. apply andb_true_iff in Ec. destruct Ec as [Ha Hb].
     exists x, y. repeat split; auto; try (apply (memb_spec ceqb ceqb_spec); assumption). apply negb_true_iff. exact Hc.
-  - intros [x [y [Hi [-> [-> [Hne [Ha [Hb Hc]]]]]]]]. exists (x, y). split; [exact Hi|]. cbn [fst snd].
+  - intros [x [y [Hi [-> [-> [Hne [Hfx [Hfy [Ha [Hb Hc]]]]]]]]]]. exists (x, y). split; [exact Hi|]. cbn [fst snd].
+    apply (memb_spec ceqb ceqb_spec) in Hfx. apply (memb_spec ceqb ceqb_spec) in Hfy. rewrite Hfx, Hfy. cbn [andb negb].
     destruct (name_eqb_spec ceqb ceqb_spec (flatten lim x) (flatten lim y)) as [E|_]; [congruence|].
     apply (memb_spec ceqb ceqb_spec) in Ha. apply (memb_spec ceqb ceqb_spec) in Hb. rewrite Ha, Hb, Hc. reflexivity.
 Qed.
@@ -215,14 +219,13 @@ Proof.
 Qed.
 
 Theorem quotient_imps k mods imports a b :
-  (forall x y, In (x, y) imports -> In x (build_nodes ceqb None mods imports) /\ In y (build_nodes ceqb None mods imports)) ->
   (In (a, b) (imps (build_graph ceqb mods imports (Some k))) <->
    exists x y, In (x, y) (imps (build_graph ceqb mods imports None)) /\
                a = flatten (Some k) x /\ b = flatten (Some k) y /\ a <> b /\ childb a b = false).
 Proof.
-  intros Hnodes. rewrite in_build_imps. unfold fl. split.
-  - intros [x [y [Hi [-> [-> [Hne [Ha [Hb Hc]]]]]]]]. exists x, y. split; [|auto].
-    apply in_build_imps. exists x, y. rewrite !fl_none. destruct (Hnodes x y Hi) as [Hx Hy].
+  rewrite in_build_imps. unfold fl. split.
+  - intros [x [y [Hi [-> [-> [Hne [Hx [Hy [Ha [Hb Hc]]]]]]]]]]. exists x, y. split; [|auto].
+    apply in_build_imps. exists x, y. rewrite !fl_none.
     repeat split; auto.
     + intros ->. apply Hne. reflexivity.
     + destruct (childb x y) eqn:Ec; [|reflexivity]. exfalso.
@@ -231,7 +234,6 @@ Proof.
     destruct Hi as [x' [y' [Hi [-> [-> [_ [Hx [Hy _]]]]]]]].
     exists x', y'. repeat split; auto; apply quotient_nodes; eauto.
 Qed.
-
 
 (* with or without a limit: the node set is closed under (non-empty) ancestors, imports are between nodes and never a hierarchy pair *)
 Lemma proper_prefix_of_flatten lim (x p : name) :
@@ -268,10 +270,10 @@ Qed.
 Theorem build_imps_between_nodes mods imports lim a b :
   In (a, b) (imps (build_graph ceqb mods imports lim)) ->
   In a (nodes (build_graph ceqb mods imports lim)) /\ In b (nodes (build_graph ceqb mods imports lim)).
-Proof. intros H. apply in_build_imps in H. destruct H as [x [y [_ [_ [_ [_ [Ha [Hb _]]]]]]]]. cbn [nodes build_graph]. auto. Qed.
+Proof. intros H. apply in_build_imps in H. destruct H as [x [y [_ [_ [_ [_ [_ [_ [Ha [Hb _]]]]]]]]]]. cbn [nodes build_graph]. auto. Qed.
 
 Theorem build_imps_no_hier mods imports lim a b :
   In (a, b) (imps (build_graph ceqb mods imports lim)) -> childb a b = false.
-Proof. intros H. apply in_build_imps in H. destruct H as [x [y [_ [_ [_ [_ [_ [_ Hc]]]]]]]]. exact Hc. Qed.
+Proof. intros H. apply in_build_imps in H. destruct H as [x [y [_ [_ [_ [_ [_ [_ [_ [_ Hc]]]]]]]]]]. exact Hc. Qed.
 
 End GraphProofs.
